@@ -70,8 +70,15 @@ def snd_content(mask, tiers):
              desc="delta content = exactly the entries above the start version, ascending by version")
 
 
+def r_snd(mask):
+    """tight per-loop bounds for the single-member whole-function sender queries"""
+    keys = bin(mask).count("1")
+    return R_COMMON + [(r"compute_partial_delta_respecting_mtu", 0, 2), (r"compute_partial_delta_respecting_mtu", 1, keys + 2),
+                       (r"compute_partial_delta_respecting_mtu", 2, 2), (r"verif_state::snd_full_pat", None, 7)]
+
+
 def snd_full(mask, tiers=("thorough",)):
-    return H(f"snd_full_{m3(mask)}", f"snd_full({mask}, 7)", macro="h_rec", tiers=tiers,
+    return H(f"snd_full_{m3(mask)}", f"snd_full({mask}, 7)", macro="h_rec", tiers=tiers, rules=r_snd(mask),
              covers=(["truncated between key-values"] if mask else []) + (["SetMaxVersion for an empty tail"]),
              funcs=F_SENDER + ["state.rs::SortedStaleNodes::*", "state.rs::StaleNode::stale_key_values"], cuts=[CUT_LISTENER, CUT_REC, "single-member shuffle cut"],
              bounds=dict(B3, sender_mask=m3(mask), digest="symbolic u64 pair", truncation="0..=5 accepted ops, symbolic"),
@@ -80,7 +87,7 @@ def snd_full(mask, tiers=("thorough",)):
 
 def snd_pat(mask, pattern, label, tiers, covers=()):
     return H(f"snd_pat_{m3(mask)}_{label}", f"snd_full_pat({mask}, 7, {pattern})", macro="h_rec", tiers=tiers, covers=list(covers),
-             rules=R_STATE + [(r"verif_state::snd_full_pat", None, 7)],
+             rules=r_snd(mask),
              funcs=F_SENDER + ["state.rs::SortedStaleNodes::*", "state.rs::StaleNode::stale_key_values", "state.rs lines 676-699 (stop at first refusal, SetMaxVersion iff nothing added)"],
              cuts=[CUT_LISTENER, CUT_REC, "single-member shuffle cut"],
              bounds=dict(B3, sender_mask=m3(mask), digest="symbolic u64 pair", acceptance_pattern=f"{label} (A = the i-th serializer call fits, R = it does not; also covers 'a large op is refused, a later smaller one fits')"),
